@@ -1,6 +1,105 @@
-(* C11 — Flattening keeps the operations. *)
-From Coq Require Import ZArith List Bool.
-From QCE Require Import Base.Prelude Core.Model C11.Proofs.
+(* C11 — Flattening keeps the operations.
+   `prog_graph env p u` is the graph of the build program p, as built (u = false) or after apply_modifiers() (u = true).
+   `flatten` answers `None` exactly in the situation of C11_model_scope (known finding F10: the implementation then keeps
+   consulting the vanished nested graphs); every other theorem is about the answers `Some f`.
+   `fully_listed f`: the flat graph stays within the documented graph-depth limit (implied by at most 4999 listed leaves). *)
+From Coq Require Import ZArith List Bool Permutation.
+Import ListNotations.
+From QCE Require Import Base.Prelude Core.Model Core.BfsWf Core.FlattenProofs Core.FlattenIdem Core.FlattenScope C11.Proofs.
+
 Theorem C11_flatten_empty : forall env, flatten env nil = Some nil.
 Proof. exact flatten_empty. Qed.
 Print Assumptions C11_flatten_empty.
+
+(* the decomposed listing with hand-off links enumerates the listed leaves, in order, under pairwise distinct paths *)
+Theorem C11_decomposed_listing : forall env p u,
+  map ge_leaf (glisting (prog_graph env p u)) = map e_leaf (listing env (prog_graph env p u)) /\
+  NoDup (map ge_path (glisting (prog_graph env p u))).
+Proof. exact prog_glisting. Qed.
+Print Assumptions C11_decomposed_listing.
+
+(* the multiset of leaf operations (class, qubits, channel, duration strategy, tag: the whole leaf) is unchanged *)
+Theorem C11_flatten_multiset : forall env p u f,
+  flatten env (prog_graph env p u) = Some f -> fully_listed f ->
+  Permutation (map e_leaf (listing env f)) (map e_leaf (listing env (prog_graph env p u))).
+Proof. exact prog_flatten_multiset. Qed.
+Print Assumptions C11_flatten_multiset.
+
+Theorem C11_flatten_multiset_bound : forall env p u f,
+  flatten env (prog_graph env p u) = Some f ->
+  (Z.of_nat (length (listing env (prog_graph env p u))) <= 4999)%Z ->
+  Permutation (map e_leaf (listing env f)) (map e_leaf (listing env (prog_graph env p u))).
+Proof. exact prog_flatten_multiset_bound. Qed.
+Print Assumptions C11_flatten_multiset_bound.
+
+(* no sub-circuit remains: one flat node per listed leaf, in listing order, each operation unchanged *)
+Theorem C11_no_subcircuit_remains : forall env p u f,
+  flatten env (prog_graph env p u) = Some f ->
+  Forall (fun n => is_comp (n_op n) = false) f /\
+  map n_op f = map OLeaf (map e_leaf (listing env (prog_graph env p u))) /\
+  length f = length (listing env (prog_graph env p u)).
+Proof. exact prog_flatten_no_subcircuit. Qed.
+Print Assumptions C11_no_subcircuit_remains.
+
+(* the flat graph is a well-formed forest, each node being what add_to_graph makes of the link it holds *)
+Theorem C11_flatten_wf : forall env p u f,
+  flatten env (prog_graph env p u) = Some f -> wf_nodes f /\ built env f /\ wf_op (OComp 1 f).
+Proof. exact prog_flatten_wf. Qed.
+Print Assumptions C11_flatten_wf.
+
+(* flattening again changes nothing that is reported (operations, order, times), and from then on nothing at all *)
+Theorem C11_flatten_again : forall env p u f,
+  flatten env (prog_graph env p u) = Some f -> fully_listed f ->
+  exists f', flatten env f = Some f' /\ listing env f' = listing env f /\ flatten env f' = Some f'.
+Proof. exact prog_flatten_again. Qed.
+Print Assumptions C11_flatten_again.
+
+Theorem C11_flatten_again_bound : forall env p u f,
+  flatten env (prog_graph env p u) = Some f ->
+  (Z.of_nat (length (listing env (prog_graph env p u))) <= 4999)%Z ->
+  exists f', flatten env f = Some f' /\ listing env f' = listing env f /\ flatten env f' = Some f'.
+Proof. exact prog_flatten_again_bound. Qed.
+Print Assumptions C11_flatten_again_bound.
+
+(* the same for every flat graph of leaves, however it was obtained *)
+Theorem C11_flatten_flat_again : forall env f ls,
+  map n_op f = map OLeaf ls -> wf_nodes f -> built env f -> fully_listed f ->
+  exists f', flatten env f = Some f' /\ listing env f' = listing env f /\ bfs (parents f') = seq 0 (length f').
+Proof. exact flatten_idem. Qed.
+Print Assumptions C11_flatten_flat_again.
+
+Theorem C11_flatten_in_order_fixpoint : forall env f ls,
+  map n_op f = map OLeaf ls -> wf_nodes f -> built env f -> bfs (parents f) = seq 0 (length f) -> flatten env f = Some f.
+Proof. exact flatten_in_order. Qed.
+Print Assumptions C11_flatten_in_order_fixpoint.
+
+(* the model gives no answer exactly when, after the hand-off, some listed leaf holds a multi-link with a member that is a
+   leaf listed earlier (t) and a member that is no listed leaf at all (t': a sub-circuit, i.e. the F10 class, or an
+   operation beyond the depth limit) *)
+Theorem C11_model_scope : forall env p u, let ns := prog_graph env p u in
+  flatten env ns = None <->
+  exists done e rest tgs t t',
+    glisting ns = done ++ e :: rest /\ ge_link e = GMulti tgs /\
+    In t tgs /\ In t (map ge_path done) /\ In t' tgs /\ ~ In t' (map ge_path (glisting ns)).
+Proof. exact prog_flatten_scope. Qed.
+Print Assumptions C11_model_scope.
+
+(* for an arbitrary nested graph (not necessarily built by the library): a member that is not listed earlier *)
+Theorem C11_model_scope_any_graph : forall env ns,
+  flatten env ns = None <->
+  exists done e rest tgs t t',
+    glisting ns = done ++ e :: rest /\ ge_link e = GMulti tgs /\
+    In t tgs /\ In t (map ge_path done) /\ In t' tgs /\ ~ In t' (map ge_path done).
+Proof. exact flatten_scope_any. Qed.
+Print Assumptions C11_model_scope_any_graph.
+
+(* on flat graphs of leaves whose multi-links name operations listed earlier, flatten always answers *)
+Theorem C11_flatten_total_on_flat : forall env f ls,
+  map n_op f = map OLeaf ls -> BfsProofs.wf_parents (parents f) -> multi_before f -> exists f', flatten env f = Some f'.
+Proof. exact flatten_total_on_flat. Qed.
+Print Assumptions C11_flatten_total_on_flat.
+
+(* known finding F10: an unrolled repeated block that contains a sub-circuit is outside the model *)
+Theorem C11_refuted_F10 : exists env p, let ns := prog_graph env p true in wf_op (OComp 1 ns) /\ flatten env ns = None.
+Proof. exact flatten_refuted_F10. Qed.
+Print Assumptions C11_refuted_F10.
